@@ -8,8 +8,11 @@ import (
 	"os"
 	"os/exec"
 	"path/filepath"
+	"sort"
 	"strings"
 	"time"
+
+	"github.com/shopspring/decimal"
 
 	"github.com/sboehler/knut/lib/journal"
 	"github.com/sboehler/knut/lib/journal/check"
@@ -83,7 +86,7 @@ func runKnut(bin string, timeout time.Duration, env []string, args ...string) (i
 	cmd := exec.CommandContext(ctx, bin, args...)
 	var so, se bytes.Buffer
 	cmd.Stdout, cmd.Stderr = &so, &se
-	cmd.Env = append(os.Environ(), env...)
+	cmd.Env = append(os.Environ(), childTZ(env, args)...)
 	err := cmd.Run()
 	if ctx.Err() != nil {
 		return -2, so.String(), se.String() + "\nTIMEOUT"
@@ -95,6 +98,37 @@ func runKnut(bin string, timeout time.Duration, env []string, args ...string) (i
 		return -1, so.String(), se.String() + err.Error()
 	}
 	return 0, so.String(), se.String()
+}
+
+// childTZ adds a time zone to the environment of a knut run (unless the caller set one): knut's dates are UTC midnights
+// and nothing it prints may depend on the zone of the machine, but a date parsed or compared in time.Local shifts period
+// boundaries east or west of Greenwich (seeded change C11-d parsed --from/--to in the local zone).  The zone is a function
+// of the arguments, so repeated runs of one case use the same one.
+var childZones = []string{"", "UTC", "Pacific/Kiritimati", "Pacific/Pago_Pago", "Europe/Zurich", "Asia/Kolkata", "America/St_Johns"}
+
+func childTZ(env []string, args []string) []string {
+	for _, e := range env {
+		if strings.HasPrefix(e, "TZ=") {
+			return env
+		}
+	}
+	h := uint32(2166136261)
+	for _, a := range args {
+		if strings.HasPrefix(a, "/") {
+			a = filepath.Base(a) // scratch directories differ from run to run
+		}
+		for i := 0; i < len(a); i++ {
+			h = (h ^ uint32(a[i])) * 16777619
+		}
+	}
+	z := childZones[int(h%uint32(len(childZones)))]
+	if z == "" {
+		return env
+	}
+	if _, err := os.Stat("/usr/share/zoneinfo/" + z); err != nil {
+		return env
+	}
+	return append(append([]string{}, env...), "TZ="+z)
 }
 
 func canonPanic(m string) string {
@@ -111,16 +145,26 @@ func runC04(c *Ctx) {
 	dir := filepath.Join(c.WorkDir, "c04")
 	os.MkdirAll(dir, 0o755)
 	subEvery := 40
-	for i := 0; i < n; i++ {
-		i := i
-		if !c.Want("journal", i) {
+	nre := c.N(2000, 40000)
+	for ii := 0; ii < n+nre; ii++ {
+		stream, i := "journal", ii
+		if ii >= n {
+			stream, i = "reopen", ii-n
+		}
+		if !c.Want(stream, i) {
 			continue
 		}
-		r := c.Rng("journal", i)
-		opts := JGenOpts{MaxAccounts: r.Range(2, 6), MaxDays: r.Range(1, 5), Mutate: true, Unicode: true, Accruals: r.Chance(1, 3), BaseDay: 737000 + r.Intn(2000), SpanDays: r.Range(0, 10)}
-		j, tags := GenJournal(r, opts)
-		if r.Chance(1, 6) && WidenDates(r, j) {
-			tags = append(tags, "wide-dates")
+		r := c.Rng(stream, i)
+		var j *Journal
+		var tags []string
+		if stream == "journal" {
+			opts := JGenOpts{MaxAccounts: r.Range(2, 6), MaxDays: r.Range(1, 5), Mutate: true, Unicode: true, Accruals: r.Chance(1, 3), BaseDay: 737000 + r.Intn(2000), SpanDays: r.Range(0, 10)}
+			j, tags = GenJournal(r, opts)
+			if r.Chance(1, 6) && WidenDates(r, j) {
+				tags = append(tags, "wide-dates")
+			}
+		} else {
+			j, tags = c04ReopenJournal(r)
 		}
 		text, offsets := j.Text()
 		path := filepath.Join(dir, fmt.Sprintf("j%d.knut", i%64))
@@ -143,7 +187,7 @@ func runC04(c *Ctx) {
 				mut = t
 			}
 		}
-		c.Class(fmt.Sprintf("c04/%s/%s/n%s", verdict, mut, bucket(len(j.Dirs))))
+		c.Class(fmt.Sprintf("c04/%s/%s/%s/n%s", stream, verdict, mut, bucket(len(j.Dirs))))
 		if i < 2 {
 			c.Sample(map[string]any{"journal": text, "impl": implStr, "detail": msg})
 		}
@@ -161,7 +205,7 @@ func runC04(c *Ctx) {
 					mv = fmt.Sprintf("error %d", mi)
 				}
 			}
-			c.Compare("journal", i, "check", in, implStr, mv)
+			c.Compare(stream, i, "check", in, implStr, mv)
 		}, "check", wire)
 		off := "-"
 		if offender >= 0 {
@@ -172,9 +216,9 @@ func runC04(c *Ctx) {
 			case mon == "ok":
 				c.Monitored++
 			case strings.HasPrefix(mon, "known "):
-				c.MonitorKnown("journal", i, "accept_iff_wellformed", in, implStr+" / "+msg+" => "+mon, strings.TrimPrefix(mon, "known "))
+				c.MonitorKnown(stream, i, "accept_iff_wellformed", in, implStr+" / "+msg+" => "+mon, strings.TrimPrefix(mon, "known "))
 			default:
-				c.Monitor("journal", i, "accept_iff_wellformed", in, false, implStr+" / "+msg+" => "+mon)
+				c.Monitor(stream, i, "accept_iff_wellformed", in, false, implStr+" / "+msg+" => "+mon)
 			}
 		}, "c04mon", wire, verdict, off)
 		// the whole text -> parser -> model directive -> builder path against the Lean parser + FromSyntax + Accrual + Builder
@@ -188,11 +232,11 @@ func runC04(c *Ctx) {
 				implDump := implLoadDump(path2)
 				lin := map[string]any{"journal": ltext, "mutation": kind}
 				c.Tag("loadtext:" + kind)
-				bt.Add(func(m string) { c.Compare("journal", i, "loadtext", lin, implDump, canonPanic(m)) }, "loadtext", Hex(ltext))
+				bt.Add(func(m string) { c.Compare(stream, i, "loadtext", lin, implDump, canonPanic(m)) }, "loadtext", Hex(ltext))
 			} else {
 				implDump := implLoadDump(path)
 				lin := map[string]any{"journal": ltext}
-				bt.Add(func(m string) { c.Compare("journal", i, "loadtext", lin, implDump, canonPanic(m)) }, "loadtext", Hex(ltext))
+				bt.Add(func(m string) { c.Compare(stream, i, "loadtext", lin, implDump, canonPanic(m)) }, "loadtext", Hex(ltext))
 			}
 		}
 		// the CLI gives the same verdict for check, print and balance, with a diagnostic naming the directive
@@ -215,8 +259,89 @@ func runC04(c *Ctx) {
 						okCLI = okCLI && strings.Contains(stderr, first)
 					}
 				}
-				c.Monitor("journal", i, "cli_verdict_"+cmd, in, okCLI, detail)
+				c.Monitor(stream, i, "cli_verdict_"+cmd, in, okCLI, detail)
 			}
 		}
 	}
+}
+
+// c04ReopenJournal walks a few asset/liability accounts through long lives: opened, booked in one or two commodities with
+// amounts that often return a position to exactly zero, closed, opened again, booked again in the SAME commodities, closed
+// again (with or without a remaining position), asserted in between.  Mostly valid steps, some invalid ones; the model
+// decides the verdict.  (Seeded change C04-d kept a per-account index of positions that forgot a commodity after a
+// close/re-open cycle, so that a later close with a non-zero position in it was accepted.)
+func c04ReopenJournal(r *RNG) (*Journal, []string) {
+	accs := []string{"Assets:A", "Liabilities:L", "Assets:A:Sub"}[:r.Range(1, 3)]
+	coms := []string{"X", "Y"}[:r.Range(1, 2)]
+	j := &Journal{}
+	day := 737000 + r.Intn(1000)
+	j.Dirs = append(j.Dirs, JDir{Kind: 'o', Date: day, Account: "Equity:E"})
+	open := map[string]bool{}
+	pos := map[[2]string]decimal.Decimal{}
+	cycles := 0
+	tagset := map[string]bool{}
+	ndays := r.Range(3, 14)
+	for d := 0; d < ndays; d++ {
+		day += r.Range(1, 3)
+		for _, a := range accs {
+			if !open[a] {
+				if r.Chance(3, 4) {
+					j.Dirs = append(j.Dirs, JDir{Kind: 'o', Date: day, Account: a})
+					open[a] = true
+				}
+				if r.Chance(1, 12) { // booking on a closed / not yet opened account
+					j.Dirs = append(j.Dirs, JDir{Kind: 't', Date: day, Desc: "ghost", Bookings: []JBook{{Credit: "Equity:E", Debit: a, Qty: "1", Com: Pick(r, coms)}}})
+					tagset["booking-on-closed"] = true
+				}
+				continue
+			}
+			if r.Chance(1, 15) {
+				j.Dirs = append(j.Dirs, JDir{Kind: 'o', Date: day, Account: a}) // opened twice
+				tagset["double-open"] = true
+			}
+			nb := r.Range(0, 3)
+			for k := 0; k < nb; k++ {
+				c := Pick(r, coms)
+				key := [2]string{a, c}
+				var q decimal.Decimal
+				if !pos[key].IsZero() && r.Chance(1, 2) {
+					q = pos[key].Neg() // back to exactly zero
+				} else {
+					q = decimal.RequireFromString(Pick(r, []string{"1", "2", "-1", "0.5", "-0.5", "10", "0"}))
+				}
+				pos[key] = pos[key].Add(q)
+				j.Dirs = append(j.Dirs, JDir{Kind: 't', Date: day, Desc: "move", Bookings: []JBook{{Credit: "Equity:E", Debit: a, Qty: q.String(), Com: c}}})
+			}
+			if r.Chance(1, 5) {
+				c := Pick(r, coms)
+				q := pos[[2]string{a, c}]
+				if r.Chance(1, 8) {
+					q = q.Add(decimal.New(1, 0))
+					tagset["wrong-assertion"] = true
+				}
+				j.Dirs = append(j.Dirs, JDir{Kind: 'a', Date: day, Balances: []JBal{{Account: a, Qty: q.String(), Com: c}}})
+			}
+			zero := true
+			for _, c := range coms {
+				if !pos[[2]string{a, c}].IsZero() {
+					zero = false
+				}
+			}
+			if (zero && r.Chance(1, 2)) || r.Chance(1, 10) {
+				j.Dirs = append(j.Dirs, JDir{Kind: 'c', Date: day, Account: a})
+				if !zero {
+					tagset["close-with-position"] = true
+				} else {
+					cycles++
+				}
+				open[a] = false
+			}
+		}
+	}
+	tags := []string{fmt.Sprintf("reopen-cycles:%d", min(cycles, 4))}
+	for t := range tagset {
+		tags = append(tags, t)
+	}
+	sort.Strings(tags)
+	return j, tags
 }
